@@ -155,7 +155,7 @@ def group_run(n, sd, shipped):
         @seed(sd)
         @settings(max_examples=n, database=None, deadline=None, phases=(Phase.generate,),
                   suppress_health_check=list(HealthCheck), report_multiple_bugs=False)
-        @given(st.one_of(gen.body(min_len=8, max_len=30, profile=DEP_PROFILE, allow_split=False), gen.body(min_len=8, max_len=30, profile=DEP_PROFILE), gen.body(max_len=16), gen.corpus_block(), gen.kept_loads_block(), gen.two_store_block(), gen.unused_hashes_block()),
+        @given(st.one_of(gen.body(min_len=8, max_len=30, profile=DEP_PROFILE, allow_split=False), gen.body(min_len=8, max_len=30, profile=DEP_PROFILE), gen.body(max_len=16), gen.corpus_block(), gen.kept_loads_block(), gen.two_store_block(), gen.dead_load_by_rule_block(), gen.unused_hashes_block()),
                st.builds(lambda a, b, c: a + b + c + ["-greedy"], st.sampled_from(options.SPLIT), st.sampled_from(options.RULES), st.sampled_from(options.CRIT)),
                st.lists(gen.block(max_len=12, profile=gen.MEM_PROFILE), min_size=2, max_size=4), st.integers(0, 9), options.encoder_options())
         def prop(instrs, argv, blocks, k, enc):
